@@ -13,7 +13,7 @@ import (
 func init() {
 	register(&Spec{ID: "C12", Title: "Logical channels are isolated and correctly routed under concurrency", Run: runC12,
 		Meta: core.Meta{
-			Explanation: "Lockset and routing rules; schedules are not explored. R12.1 (E-LOCK, guarded-by table confirmed by reading): Conn.tdsChannels is read only under tdsChannelsLock (R or W) and written only under W (objects under construction exempt); Conn.tdsChannelCurFreeId is touched only through sync/atomic or under W; Channel.closed is read under the channel's RWMutex and written under W; the hook slices are accessed under one mutex. The must-lockset is computed per function over SSA (Lock/RLock add, Unlock/RUnlock remove, deferred unlocks keep the lock to the exit, unexported callees inherit the meet over their call sites). R12.2: in Conn.ReadFrom the receiver of WritePacket is the comma-ok result of tdsChannels[int(packet.Header.Channel)] for the packet just read, and the !ok edge reports on Conn.errCh and continues. R12.3: sendPacket stamps Header.Channel from channelId and Header.PacketNr from curPacketNr on the channelId > 0 edge and advances curPacketNr by one modulo 2^bits(PacketNr). R12.4: NewChannel registers the channel under the id it stores in channelId; Close deletes that id under the write lock. R12.5: the set-up acknowledgement test in NewChannel uses a type assertion that some producer can satisfy and is followed by the PROTACK test. R12.6: WritePacket tests `closed` under the channel lock before it touches the queues.",
+			Explanation: "Lockset and routing rules; schedules are not explored. R12.1 (E-LOCK, guarded-by table confirmed by reading): Conn.tdsChannels is read only under tdsChannelsLock (R or W) and written only under W (objects under construction exempt); Conn.tdsChannelCurFreeId is touched only through sync/atomic or under W; Channel.closed is read under the channel's RWMutex and written under W; the hook slices are accessed under one mutex. The must-lockset is computed per function over SSA (Lock/RLock add, Unlock/RUnlock remove, deferred unlocks keep the lock to the exit, unexported callees inherit the meet over their call sites). R12.2: in Conn.ReadFrom the receiver of WritePacket is the comma-ok result of tdsChannels[int(packet.Header.Channel)] for the packet just read, and the !ok edge reports on Conn.errCh and continues. R12.3: sendPacket stamps Header.Channel from channelId and Header.PacketNr from curPacketNr on the channelId > 0 edge and advances curPacketNr by one modulo 2^bits(PacketNr). R12.4: NewChannel registers the channel under the id it stores in channelId; Close deletes that id under the write lock. R12.5: the set-up acknowledgement test in NewChannel uses a type assertion that some producer can satisfy and is followed by the PROTACK test. R12.6: WritePacket tests `closed` under the channel lock before it touches the queues. R12.4 also requires that the registration in tdsChannels dominates the sending of the set-up packet (the acknowledgement can be routed as soon as the packet is out).",
 			NotDecided:  "Interleavings and data races on fields used by one goroutine per channel by contract (curPacketNr, CurrentHeaderType, packetSize) are not decided; the race detector is another technique family.",
 			Assumptions: []string{"sync.RWMutex / sync/atomic semantics", "fields outside the guarded-by table are confined to one goroutine by the library's contract"},
 		}})
